@@ -1,6 +1,7 @@
 import RV.Proofs.AllocMem
 import RV.Proofs.AllocTrim
 import RV.Proofs.AllocReplay
+import RV.Proofs.AllocNoWrap
 /-!
 # C12 — z.Allocator hands out disjoint, stable, exactly sized memory, also concurrently
 
@@ -161,6 +162,47 @@ theorem trim_suffix (mx : W) (cs : List Nat) (h : cs.sum < 2 ^ 63) :
     ∃ k, k ≤ nonEmptyPrefix cs ∧ ∀ i, chunkLen (trimTo mx cs) i =
       if i < k then chunkLen cs i else if i < nonEmptyPrefix cs then 0 else chunkLen cs i :=
   trimFrom_suffix mx cs 0#64 (by simpa using h)
+
+/-! ## When the hypothesis holds by itself -/
+
+/-- **NoWrap for free.**  `n` goroutines, every request at most `S` bytes, every chunk at most
+`M ≥ maxAlloc` bytes (first chunk `c0 ≤ M`; new chunks are capped at `maxAlloc`): if
+`M + n·S < 2^32` then *no* run (`ReachOK`: any interleaving, any Reset/TrimTo history, as long
+as nobody has died inside the critical section) ever carries, so all the theorems above apply
+unconditionally.  Instances below.  The bound is sharp: with `M = S = 2^30` it allows
+`n ≤ 2`; three goroutines on a full 1 GiB chunk and four in general do carry (F7). -/
+theorem c12_nowrap_sufficient (c0 n M S : Nat) (hc : c0 ≤ M) (hM : 2 ^ 30 ≤ M)
+    (hb : M + n * S < 2 ^ 32) (s : State) (h : ReachOK S (init c0 n) s) :
+    ReachNW (init c0 n) s :=
+  (nowrap_sufficient hc hM hb h).1
+
+/-- Up to two goroutines, any legal request sizes (`≤ maxAlloc`), first chunk up to 1 GiB. -/
+theorem c12_two_goroutines (c0 n : Nat) (hc : c0 ≤ 2 ^ 30) (hn : n ≤ 2) (s : State)
+    (h : ReachOK (2 ^ 30) (init c0 n) s) : ReachNW (init c0 n) s := by
+  refine c12_nowrap_sufficient c0 n (2 ^ 30) (2 ^ 30) hc (Nat.le_refl _) ?_ s h
+  have : n * 2 ^ 30 ≤ 2 * 2 ^ 30 := Nat.mul_le_mul_right _ hn
+  omega
+
+/-- Sequential use (one goroutine): first chunk up to 2 GiB. -/
+theorem c12_sequential (c0 : Nat) (hc : c0 ≤ 2 ^ 31) (s : State)
+    (h : ReachOK (2 ^ 30) (init c0 1) s) : ReachNW (init c0 1) s :=
+  c12_nowrap_sufficient c0 1 (2 ^ 31) (2 ^ 30) hc (by decide) (by decide) s h
+
+/-- Up to five goroutines with requests of at most 512 MiB. -/
+theorem c12_five_goroutines_half_gib (c0 n : Nat) (hc : c0 ≤ 2 ^ 30) (hn : n ≤ 5) (s : State)
+    (h : ReachOK (2 ^ 29) (init c0 n) s) : ReachNW (init c0 n) s := by
+  refine c12_nowrap_sufficient c0 n (2 ^ 30) (2 ^ 29) hc (Nat.le_refl _) ?_ s h
+  have : n * 2 ^ 29 ≤ 5 * 2 ^ 29 := Nat.mul_le_mul_right _ hn
+  omega
+
+/-- **No spinning.**  While every chunk up to the current one exists (`Live`: true initially,
+preserved by every step except a `TrimTo` that frees the first or the current chunk –
+`live_step`) and chunks are below 2^60 bytes, the critical section never hangs in
+`for pageSize < minSz { pageSize *= 2 }`. -/
+theorem c12_no_hang (s s' : State) (t : Nat) (hI : Inv s) (hL : Live s)
+    (hle : ∀ c ∈ s.chunks, c ≤ 2 ^ 60) (h : step s (.grow t) = some s') :
+    ∀ th, s'.threads[t]? = some th → th.pc ≠ .hung :=
+  no_hang hI hL hle h
 
 /-! ## The hypothesis cannot be dropped (finding F7) -/
 
